@@ -27,7 +27,7 @@ func init() {
 		Level: "model_checking",
 		Rule: "harness = one shared WAF (rules with @rx+capture, @pm, a regex-keyed target with three configured exclusions, a ctl:ruleRemoveTargetById, a chain, setvar arithmetic, a threshold deny, audit log to one shared writer) used by 2-3 controlled threads: T1 and T2 each run one complete transaction (different requests) and close it, T3 builds and closes a second WAF that shares some patterns with the first; a fourth scenario runs the first two transactions of a freshly built WAF (lazily initialised rule state); further scenarios: 2 threads x 2 transactions with pooled objects recycled across threads, 2 threads each building and closing a WAF, 2 threads building WAFs that register transformation chains new to the process, and 2 complete exchanges (all 5 phases, JSON and multipart request bodies, JSON and text response bodies, ~30 operator / transformation families incl. @detectSQLi, @detectXSS, @ipMatch, @pmFromDataset, @restpath, @validateNid, macros in operator arguments, every audit part) on one shared WAF; " +
 			"every interleaving at every operation of the sync / atomic / singleflight / pool shims is explored depth-first up to the preemption bound (2 transactions: 3 quick / 4 thorough; with the WAF-building thread: 2 quick / 3 thorough; transaction + WAF build and fresh WAF: 2 quick / 3 thorough), with an extra scheduling point between the API calls of a transaction, in the default and the multiphase build, every execution under the race detector (hand-off invisible to it); " +
-			"oracle per execution: no race report, no deadlock, no panic, every thread's outcome and the multiset of audit records equal the outcomes of the threads run alone. states = scheduling-tree nodes (choice points executed), transitions = scheduling steps, traces = complete schedules",
+			"oracle per execution: no race report, no deadlock, no lock still held when every thread has returned, no panic, every thread's outcome and the multiset of audit records equal the outcomes of the threads run alone. states = scheduling-tree nodes (choice points executed), transitions = scheduling steps, traces = complete schedules",
 		Assumptions: []string{
 			"scheduling points are the synchronisation operations of the coraza module (and single-flight); code between two of them is atomic for the scheduler, its unsynchronised accesses are caught by the race detector instead",
 			"memory-model effects weaker than sequential consistency are not explored (irrelevant for executions the detector proves race-free)",
@@ -249,7 +249,17 @@ func selfTest(c *runner.Ctx) {
 	if !dead {
 		panic("C06 self test: lock-order inversion not reported as deadlock")
 	}
-	c.Note("self test passed: lost update, race report, mutex silence, deadlock (%d schedules of the mutex scenario)", st.Execs)
+	// a lock taken on one path and never released
+	leaked := false
+	mc.Explore(mc.Options{Bound: 1}, func(cx *mc.Ctx) {
+		var l vsync.Mutex
+		r := sched.Run(cx, func() { l.Lock() }, func() {})
+		leaked = leaked || len(r.Leaked) == 1
+	})
+	if !leaked {
+		panic("C06 self test: a lock that is never released was not reported")
+	}
+	c.Note("self test passed: lost update, race report, mutex silence, deadlock, leaked lock (%d schedules of the mutex scenario)", st.Execs)
 }
 
 var chainSeq int
@@ -313,13 +323,20 @@ func run(c *runner.Ctx) {
 	}
 	auditcap.Take()
 	c.RaceReports()
+	// after a deadlock or a leaked lock the process-wide state (pattern cache, registries) is not reusable:
+	// the worker reports what it found and stops exploring
+	poisoned := false
 	for si, sc := range scenarios {
+		if poisoned {
+			c.Incomplete("stopped after a deadlock / leaked lock: the state of this process cannot be reused")
+			break
+		}
 		// the scenarios are split over the workers of a variant by schedule prefix: the
 		// first scheduling choices select the shard
 		execs := 0
 		var mu sync.Mutex
 		_ = mu
-		st := mc.Explore(mc.Options{Bound: sc.bound, MaxExecs: 400000, Stop: c.Expired, Worker: c.Worker, Workers: c.Workers}, func(cx *mc.Ctx) {
+		st := mc.Explore(mc.Options{Bound: sc.bound, MaxExecs: 400000, Stop: func() bool { return poisoned || c.Expired() }, Worker: c.Worker, Workers: c.Workers}, func(cx *mc.Ctx) {
 			execs++
 			out := make([]string, 2)
 			wx := w
@@ -406,6 +423,11 @@ func run(c *runner.Ctx) {
 			}
 			if res.Deadlock != "" {
 				report("deadlock", res.Deadlock)
+				poisoned = true
+			}
+			if len(res.Leaked) > 0 {
+				report("lock-never-released:"+res.Leaked[0], fmt.Sprintf("every thread has returned but %d lock(s) are still held, taken in %v: the next user of such a lock blocks for ever", len(res.Leaked), res.Leaked))
+				poisoned = true
 			}
 			for i, p := range res.Panics {
 				if p != "" {
